@@ -1,5 +1,5 @@
 from vdriver import Group
-META = {'level': 'other'}
+META = {'level': 'other', 'assumptions': ['provider ids range over 256 values in the harness (byte 0 symbolic, bytes 1..31 zero): the code compares ids for equality only']}
 def groups(tier):
     K = dict(unit='kad_providers', harness='C06/providers.c', stub=['chunk_id_to_string', 'KademliaTable__sweep_buckets', 'KademliaTable__upsert_bucket'],
              checks=['--bounds-check', '--pointer-check'], unwind=6, unwind_by={'same_id': 33, 'cxx_memcmp': 33, 'setup': 33, 'body_add': 33, 'body_withdraw': 33, 'KademliaTable__add_contact.1': 1, 'KademliaTable__add_contact.2': 1, 'KademliaTable__sweep_expired#0': 3, 'KademliaTable__sweep_expired#2': 3}, kind='bounded', timeout=1500, defines=['CXX_FIXED_STORAGE', 'CXX_VEC_CAP=6', 'H=3'],
